@@ -1,0 +1,39 @@
+//go:build verif
+// +build verif
+
+// Contracts for the deductive verifier in /verif (govc). Comment-only: no executable code.
+package limiter
+
+//@ func (*rateLimiter).UpdateRateLimitConditionStatus props C13
+//@   requires [n_range] 1 <= r.shardCount && r.shardCount <= 4294967295
+//@   modifies *
+//@   ensures [not_leader] !isLeaderOf(old(r.leaderElector), shardOf(upstream, old(r.shardCount))) ==> result1 != nil && storeops == old(storeops)
+//@   loop 0: invariant [t] true
+
+//@ func (*rateLimiter).DoAcquire props C13
+//@   requires [n_range] 1 <= r.shardCount && r.shardCount <= 4294967295
+//@   modifies *
+//@   ensures [not_leader] !isLeaderOf(old(r.leaderElector), shardOf(upstream, old(r.shardCount))) ==> result1 != nil && result == nil && storeops == old(storeops)
+//@   loop 0: invariant [t] true
+
+//@ func (*rateLimiter).UpstreamConditionHandler props C13
+//@   requires [n_range] 1 <= r.shardCount && r.shardCount <= 4294967295
+//@   modifies *
+//@   ensures [not_leader] !isLeaderOf(old(r.leaderElector), shardOf(old(cluster.Name), old(r.shardCount))) ==> result == nil && storeops == old(storeops)
+
+//@ func (*rateLimiter).deleteCondition props C13
+//@   requires [n_range] 1 <= r.shardCount && r.shardCount <= 4294967295
+//@   modifies *
+//@   ensures [not_leader] !isLeaderOf(old(r.leaderElector), shardOf(old(condition.Spec.UpstreamCluster), old(r.shardCount))) ==> storeops == old(storeops)
+
+//@ func (*rateLimiter).getLimitStoreForShard props C13
+//@   pure
+//@   ensures [lookup] result == r.limitStoreMap[shardId]
+
+//@ func (*rateLimiter).stopLeading props C13
+//@   modifies *
+//@   ensures [dropped] !(shardId in old(r.limitStoreMap)) && r.limitStoreMap == old(r.limitStoreMap)
+
+//@ func stopLimitStoreWithRetry props C13
+//@   modifies storeops
+//@   loop 0: invariant [t] true
